@@ -194,8 +194,53 @@ def r3(R, repo):
   ok = ok and 'issubclass(p, variablelib.Variable)' in astu.src(sv.node) and 't.mro()' in astu.src(sv.node)
   keyl = astu.kwarg(rets[0], 'key') if len(rets) == 1 and isinstance(rets[0], ast.Call) and astu.call_name(rets[0]) == 'sorted' else None
   asc = keyl is not None and 'parent_count' in astu.src(keyl) and not any(isinstance(x, ast.UnaryOp) and isinstance(x.op, ast.USub) for x in ast.walk(keyl)) and not astu.is_const(astu.kwarg(rets[0], 'reverse'), True)
+  # a later stable sort by another key becomes the primary order: follow `sorted(<name bound to sorted(...)>, key=...)`
+  resorted = None
+  if len(rets) == 1 and isinstance(rets[0], ast.Call) and astu.call_name(rets[0]) == 'sorted' and rets[0].args and (keyl is None or 'parent_count' not in astu.src(keyl)):
+    inner = [e for e in evid.expand(sv, rets[0].args[0]) if isinstance(e, ast.Call) and astu.call_name(e) == 'sorted' and astu.kwarg(e, 'key') is not None and 'parent_count' in astu.src(astu.kwarg(e, 'key'))]
+    if inner:
+      resorted = inner[0]
+  if resorted is not None:
+    R.fail(key_of(sv, 'sorted by number of Variable ancestors, descending, as the primary key'), (sv, rets[0]),
+           '`%s` re-sorts the depth-ordered types by another key: the number of Variable ancestors is no longer the primary order, so a base class can precede its subclass and (nnx.split being first-match) swallow the subclass\'s variables' % astu.short(rets[0]))
+    return
   R.judge((isinstance(keyl, ast.Lambda) and 'parent_count' in astu.src(keyl)) or asc, ok and not asc, key_of(sv, 'sorted by number of Variable ancestors, descending, as the primary key'), sv,
           'sort_variable_types must order types by -(number of Variable classes in the MRO) as the primary key, so that a subclass always precedes its base')
+
+
+def _box_fields(repo, mod, cls, depth=0):
+  """Annotated dataclass fields of a metadata box class, including those of its bases inside the repository."""
+  c = mod.classes.get(cls)
+  if c is None or depth > 4:
+    return None
+  out = []
+  for b in c.bases:
+    name = astu.dotted(b.value if isinstance(b, ast.Subscript) else b) or ''
+    tail = name.split('.')[-1]
+    if tail in ('PyTreeNode', 'Generic') or tail.startswith('AxisMetadata'):
+      continue
+    target = None
+    if tail in mod.classes:
+      target = (mod, tail)
+    else:
+      head = name.split('.')[0]
+      imp = mod.imports.get(head)
+      if imp:
+        rel = imp.replace('.', '/') + '.py'
+        if len(name.split('.')) == 1:
+          rel = '/'.join(imp.split('.')[:-1]) + '.py'
+        if rel in repo._paths and tail in repo.mod(rel).classes:
+          target = (repo.mod(rel), tail)
+    if target is None:
+      return None
+    sub = _box_fields(repo, target[0], target[1], depth + 1)
+    if sub is None:
+      return None
+    out += sub
+  for st in c.body:
+    if isinstance(st, ast.AnnAssign) and isinstance(st.target, ast.Name) and 'ClassVar' not in astu.src(st.annotation):
+      out.append(st.target.id)
+  return out
 
 
 @rule('C18.R4', 'K4', 5, 'metadata conversions rename the same key pairs in opposite directions; the Linen box type travels with the Variable')
@@ -211,6 +256,21 @@ def r4(R, repo):
     m = repo.mod(rel)
     to, fr = m.func(cls + '.to_nnx_metadata'), m.func(cls + '.from_nnx_metadata')
     rt, rf = renames(to), renames(fr)
+    lit = [n.value for n in astu.body_walk(to.node) if isinstance(n, ast.Return) and isinstance(n.value, ast.Dict)]
+    if lit and not rt and all(k is not None and astu.const_str(k) is not None for d_ in lit for k in d_.keys):
+      # the metadata dict is written out by hand: every dataclass field of the box (renamed or not) must be in it
+      fields = _box_fields(repo, m, cls)
+      ren = dict(want)
+      for d_ in lit:
+        keys = {astu.const_str(k) for k in d_.keys}
+        missing = sorted(ren.get(f_, f_) for f_ in fields if ren.get(f_, f_) not in keys) if fields else None
+        if missing is None:
+          R.unsure(key_of(m.rel, '%s: to/from rename %s' % (cls, want)), (to, d_), 'fields of %s not resolved' % cls)
+        elif missing:
+          R.fail(key_of(m.rel, '%s: to/from rename %s' % (cls, want)), (to, d_), '%s.to_nnx_metadata builds `%s` by hand and leaves out %s: that metadata is lost on every Linen -> NNX conversion (from_nnx_metadata cannot restore it)' % (cls, astu.short(d_), missing))
+        else:
+          R.ok(key_of(m.rel, '%s: to/from rename %s' % (cls, want)), (to, d_))
+      continue
     R.judge(len(rt) == len(want) and len(rf) == len(want), sorted(rt) == sorted(want) and sorted(rf) == sorted((b, a) for a, b in want), key_of(m.rel, '%s: to/from rename %s' % (cls, want)), to,
             '%s.to_nnx_metadata renames %s but from_nnx_metadata renames %s (must be exact inverses)' % (cls, rt, rf))
     R.check('fields = {x.name for x in dataclasses.fields(cls)}' in astu.src(fr.node) and 'if k in fields' in astu.src(fr.node), key_of(fr, 'only dataclass fields passed to the constructor'), fr,
